@@ -18,11 +18,11 @@ Definition show_obs (t : obs) : string :=
   | CancelNow lvl => "k" ++ show_nat lvl
   end.
 
-(** input: body, (processed outcome, canceller) of Deferreds 0..n-1, pre-fired, fired-while-paused before the call, schedule *)
-Definition run_show (c : stmt * list (outcome * cbeh) * list nat * list nat * list sop) : string :=
-  let '(s, ds, pre, hold0, sched) := c in
+(** input: coroutine?, body, (processed outcome, canceller) of Deferreds 0..n-1, pre-fired, fired-while-paused before the call, schedule *)
+Definition run_show (c : bool * stmt * list (outcome * cbeh) * list nat * list nat * list sop) : string :=
+  let '(coro, s, ds, pre, hold0, sched) := c in
   let assign := fun d => fst (nth d ds (Val (VInt (-1)), CNothing)) in
   let canc := fun d => snd (nth d ds (Val (VInt (-1)), CNothing)) in
-  let '(st, w) := run assign canc pre hold0 (gen_of s) sched in
+  let '(st, w) := run assign canc coro pre hold0 (gen_of s) sched in
   String.concat " " (map show_obs (rev (seen w))) ++ " | " ++
   match st with Finished r => "R:" ++ show_outcome r | Suspended d _ => "S:" ++ show_nat d end.
